@@ -763,11 +763,39 @@ def m_C10(v):
                             out.append((i, f"C10 {u} still blacklisted after un-blacklisting"))
                         if d.get("bluts", "none") != "none" and d2.get("uts") != d.get("bluts"):
                             out.append((i, f"C10 guarantee record of {u} not restored: {d2.get('uts')} vs parked {d.get('bluts')}"))
+                # the reservation is restored exactly: the guaranteed tickets of the parked records move from the base
+                # winners back to the reserve, nothing else
+                if "tg" in g and "tg" in g2:
+                    moved = 0
+                    seen = set()
+                    for u in users:
+                        d = addrs.get(u)
+                        if d is None or u in seen or d.get("bl") != "1":
+                            moved = None if d is None else moved
+                            continue
+                        seen.add(u)
+                        if moved is not None:
+                            moved += guaranteed_of(v.variant, d.get("bluts", "none"))
+                    if moved is not None and (int(g2["tg"]) - int(g["tg"]) != moved or int(g["nrw"]) - int(g2["nrw"]) != moved):
+                        out.append((i, f"C10 un-blacklisting {users} moved {int(g2['tg']) - int(g['tg'])} tickets into the reserve and "
+                                       f"{int(g['nrw']) - int(g2['nrw'])} out of the base winners; their parked guarantees are {moved}"))
         if c["ep"] == "confirm" and R["st"] == "ok":
             d = addrs.get(c["caller"])
             if d and d.get("bl") == "1":
                 out.append((i, "C10 a blacklisted address confirmed tickets"))
     return out
+
+
+def guaranteed_of(variant, uts):
+    """number of tickets a (parked) guarantee record reserves"""
+    if uts in (None, "none"):
+        return 0
+    if variant == "guarV2":
+        # "<allowance>:[g/m,...]"
+        body = uts.split(":", 1)[1] if ":" in uts else "[]"
+        return sum(int(x.split("/")[0]) for x in canon.parse_list(body))
+    a, b, c, d = [int(x) for x in uts.split(":")]
+    return c + d
 
 
 def qualified(variant, uts, conf, minc):
